@@ -152,6 +152,12 @@ def runSessionC {σ : Type} (fr : Framing) (cfg : ServerCfg σ) (_decode : Decod
   let (ds, kind) := deliveriesC script
   handleEvents fr cfg kind hs (readerRunC fr ds)
 
+/-- `SessionTask::run` with reads cancelled by commands AND a transport whose `(n+1)`-th write fails -/
+def runSessionWC {σ : Type} (fr : Framing) (cfg : ServerCfg σ) (_decode : DecodeLevel)
+    (n : Nat) (hs : List (Nat × σ)) (script : List SessStep) : SessOutW σ :=
+  let (ds, kind) := deliveriesC script
+  handleEventsW fr cfg kind n hs (readerRunC fr ds)
+
 /-- the level in force after a prefix of the script -/
 def levelAfter (l : DecodeLevel) : List SessStep → DecodeLevel
   | [] => l
